@@ -382,11 +382,14 @@ def r3(tree, rep):
 
 
 def r4(tree, rep):
+    from ..cfg import object_atom
+    _no = lambda v: isinstance(v, ast.Constant) and (v.value is False or v.value is None)
+    _yes = lambda v: isinstance(v, ast.Constant) and not _no(v) and bool(v.value)
     for meth, delegate in (("input_code", "self._C.input_code"), ("allocate_code", "self._C.allocate_code"), ("set_code", "self._C.set_code")):
         fn = tree.func(BOSS, "Boss", meth)
         g = build(fn, split=True)
-        started = truthy_atom(lambda e: is_self_attr(e, "_did_start_code"))
-        sets = g.nodes(lambda s: isinstance(s, ast.Assign) and any(is_self_attr(x, "_did_start_code") for x in s.targets) and const(s.value) is True)
+        started = object_atom(lambda e: is_self_attr(e, "_did_start_code"))       # False / None = "not yet", anything else = started
+        sets = g.nodes(lambda s: isinstance(s, ast.Assign) and any(is_self_attr(x, "_did_start_code") for x in s.targets) and _yes(s.value))
         dl = g.call_nodes(lambda c, delegate=delegate: dotted(c.func) == delegate)
         te = g.cond_edges(started, True)
         ok = len(sets) == 1 and len(dl) == 1 and bool(te) and g.when_always_raises(started, True) and not g.only_when(dl + sets, started, False) \
@@ -397,7 +400,7 @@ def r4(tree, rep):
         rep.check("C19.R4", "Boss.%s raises OnlyOneCodeError if a code was already started, and sets the flag before delegating to Code" % meth, ok, site(fn, BOSS),
                   key="C19.R4:Boss.%s" % meth, what="%s can be used after another code method was used (two codes / two allocations)" % meth)
     own, foreign = class_writers(tree, "Boss", "_did_start_code")
-    ok = not foreign and all((w.fn == "_init_other_state" and is_const(w.value, False)) or (w.fn in ("input_code", "allocate_code", "set_code") and is_const(w.value, True)) for w in own)
+    ok = not foreign and all((w.fn == "_init_other_state" and _no(w.value)) or (w.fn in ("input_code", "allocate_code", "set_code") and _yes(w.value)) for w in own)
     rep.check("C19.R4", "Boss._did_start_code is cleared only by the constructor and set only by the three entry points", ok and len(own) == 4, BOSS, key="C19.R4:flag-writers",
               what="writers: %s" % [w.brief() for w in own + foreign])
     from ..astutil import walk_shallow as ws
@@ -442,18 +445,60 @@ def r5(tree, rep):
     ok = False
     if bn is not None:
         al = calls_named(bn, "self._C.allocated")
-        cw = [c for c in ast.walk(bn) if isinstance(c, ast.Call) and dotted(c.func) == "self._wordlist.choose_words"]
-        if len(al) == 1 and len(cw) == 1 and len(al[0].args) == 2:
+        cw = [c for c in ast.walk(bn) if isinstance(c, ast.Call) and isinstance(c.func, ast.Attribute) and c.func.attr == "choose_words"]
+        if len(al) == 1 and len(cw) == 1 and len(al[0].args) == 2 and len(cw[0].args) == 1:
             v = expand(bn, al[0].args[1])
             from ..astutil import hyphen_joined
             hj = hyphen_joined(v)
             ok = hj is not None and isinstance(hj[0], ast.Name) and hj[0].id in params(bn) \
-                and isinstance(hj[1], ast.Call) and dotted(hj[1].func) == "self._wordlist.choose_words" \
-                and is_self_attr(hj[1].args[0], "_length") and isinstance(al[0].args[0], ast.Name) and al[0].args[0].id == hj[0].id
-    rep.check("C19.R5", "an allocated code is <server nameplate> + '-' + choose_words(<requested length>)", ok, site(bn, A.file) if bn else A.file, key="C19.R5:build_and_notify")
-    own, foreign = class_writers(tree, "Allocator", "_length")
-    ok = not foreign and all(isinstance(w.value, ast.Name) and w.value.id == "length" for w in own) and len(own) >= 1
-    rep.check("C19.R5", "Allocator._length is the length given to allocate()", ok, A.file, key="C19.R5:_length")
+                and isinstance(hj[1], ast.Call) and isinstance(hj[1].func, ast.Attribute) and hj[1].func.attr == "choose_words" \
+                and isinstance(al[0].args[0], ast.Name) and al[0].args[0].id == hj[0].id
+    rep.check("C19.R5", "an allocated code is <server nameplate> + '-' + choose_words(..)", ok, site(bn, A.file) if bn else A.file, key="C19.R5:build_and_notify")
+
+    def stored_sources(expr):
+        """what the Allocator stored in the place `expr` reads: self.<a> -> the values its writers assign; a local unpacked
+        from self.<a> = (x, y) at position i -> element i of what the writers assign.  None = cannot tell."""
+        e = expr
+        idx = None
+        if isinstance(e, ast.Name):
+            for asg in ast.walk(bn):
+                if isinstance(asg, ast.Assign) and len(asg.targets) == 1:
+                    t = asg.targets[0]
+                    if isinstance(t, ast.Name) and t.id == e.id:
+                        e = asg.value
+                        break
+                    if isinstance(t, ast.Tuple) and any(isinstance(x, ast.Name) and x.id == e.id for x in t.elts):
+                        idx = [getattr(x, "id", None) for x in t.elts].index(e.id)
+                        e = asg.value
+                        break
+            else:
+                return None
+        if isinstance(e, ast.Subscript) and isinstance(const(e.slice), int):
+            idx, e = const(e.slice), e.value
+        if not is_self_attr(e):
+            return None
+        own, foreign = class_writers(tree, "Allocator", e.attr)
+        if foreign or not own:
+            return None
+        out = []
+        for w in own:
+            val = w.value
+            if idx is not None:
+                if isinstance(val, ast.Constant) and val.value is None:
+                    continue                 # the "nothing requested yet" initial value
+                if not (isinstance(val, ast.Tuple) and idx < len(val.elts)):
+                    return None
+                val = val.elts[idx]
+            out.append((w, val))
+        return out
+    ok = False
+    if bn is not None and len(cw) == 1 and len(cw[0].args) == 1:
+        src = stored_sources(cw[0].args[0])
+        ok = bool(src) and all(isinstance(val, ast.Name) and val.id == "length" for (w, val) in src)
+        rcv = stored_sources(cw[0].func.value)
+        ok = ok and bool(rcv) and all(isinstance(val, ast.Call) and dotted(val.func) == "_interfaces.IWordlist" and len(val.args) == 1
+                                      and isinstance(val.args[0], ast.Name) and val.args[0].id == "wordlist" for (w, val) in rcv)
+    rep.check("C19.R5", "the words are chosen by the wordlist, and with the length, given to allocate()", ok, A.file, key="C19.R5:_length")
     ba = tree.func(BOSS, "Boss", "allocate_code")
     cs = calls_named(ba, "self._C.allocate_code")
     ok = len(cs) == 1 and isinstance(cs[0].args[0], ast.Name) and cs[0].args[0].id in params(ba) and isinstance(expand(ba, cs[0].args[1]), ast.Call) \
@@ -469,7 +514,10 @@ def run(tree, rep, tier):
     r5(tree, rep)
 
 
+ALLOC = "src/wormhole/_allocator.py"
 MUTANTS = [
+    Mutant("allocator-fixed-length", ALLOC, "        words = self._wordlist.choose_words(self._length)", "        words = self._wordlist.choose_words(2)", "C19.R5"),
+    Mutant("allocator-length-off", ALLOC, "    def stash(self, length, wordlist):\n        self._length = length", "    def stash(self, length, wordlist):\n        self._length = length + 1", "C19.R5"),
     Mutant("dup-word", WL, "    '01': ['absurd', 'adviser'],", "    '01': ['aardvark', 'adviser'],", "C19.R1"),
     Mutant("drop-entry", WL, "    '01': ['absurd', 'adviser'],\n", "", "C19.R1"),
     Mutant("urandom-hoisted", WL, "        words = []\n        for i in range(length):", "        words = []\n        b = os.urandom(1)\n        for i in range(length):", "C19.R2",
